@@ -636,3 +636,35 @@ def r02d(ctx):
         ctx.bad(cid, mod.loc(fn), "the merged divisions are always de-duplicated, also when all inputs carry the SAME divisions with a repeated last entry (0, 2, 3, 4, 4): lowering leaves such inputs untouched (4 partitions) while the node advertises (0, 2, 3, 4) - partitions[-1] / tail() address the wrong partition")
     else:
         ctx.ok(cid, mod.loc(fn), "identical input divisions are reported unchanged")
+
+
+@rule(
+    "R02e",
+    ["C02", "C06"],
+    """set_index(sorted=True) REFUSES PARTITIONS THAT ARE NOT IN ORDER - both ends: `_compute_partition_stats` trusts the caller's claim
+    that the data is sorted and only checks the per-partition summaries. Partitions are "sorted relative to each other" only if BOTH the
+    minima AND the maxima of the non-empty partitions are non-decreasing; with the minima alone a partition nested inside its neighbour
+    ([0..9], [3..5]) passes, its range gets divisions (0, 3, 5) and rows 6..9 sit in a partition whose divisions exclude them.""",
+)
+def r02e(ctx):
+    model = ctx.model
+    mod, fn = model.func("_collection", "_compute_partition_stats")
+    tested = set()
+    for i_ in (x for x in ast.walk(fn) if isinstance(x, ast.If) and any(isinstance(b, ast.Raise) for b in x.body)):
+        for cmp_ in (x for x in ast.walk(i_.test) if isinstance(x, ast.Compare)):
+            b = pmatch("sorted(V_x) != V_x", cmp_) or pmatch("V_x != sorted(V_x)", cmp_)
+            if b:
+                tested.add(b["V_x"])
+    defs = flow.Defs(fn)
+    kinds = set()
+    for v in tested:
+        texts = " ".join(ast.unparse(d.value) for d in defs.reaching(v, fn.body[-1]) if d.value is not None)
+        if "mins" in texts or "min" in v:
+            kinds.add("min")
+        if "maxes" in texts or "max" in v:
+            kinds.add("max")
+    cid = "_collection._compute_partition_stats:both-ends-sorted"
+    if kinds >= {"min", "max"}:
+        ctx.ok(cid, mod.loc(fn), "unsorted minima OR unsorted maxima raise")
+    else:
+        ctx.bad(cid, mod.loc(fn), f"the 'partitions are not sorted' refusal tests only {sorted(kinds) or 'nothing'}: a partition whose range is nested in / interleaved with its neighbour's passes, set_index(sorted=True) publishes divisions built from the minima and rows above the next minimum lie outside their partition's divisions (loc and merges lose them)")
